@@ -939,6 +939,11 @@ NOTES = [
     "kernel replay; heavy instances (independent blocks, guarded pigeonhole, sparse indices up to 100000, >64/>1024/>2048 variables, noisy "
     "planted 3-SAT) are judged by construction with direct evaluation of every returned assignment against all clauses and totality over "
     "1..n_vars, kernel replay skipped and counted; call sequences (same object twice, two option sets in both orders) must agree",
+    "round-3 (W work volume, A2): full enumerations with a known model count (one long clause: 2^k-1, k independent 2-clauses: 3^k; up to "
+    "8191 / 16383 blocking clauses), >= 5001 and >= 10^4 conflicts inside one restart interval (luby_factor 5001 .. 2^40 on guarded pigeonhole / "
+    "planted 3-CNF), >= 10^4 learned clauses with many reduce_db rounds, >= 2^10 restarts (luby_factor 1); maxima reached are in "
+    "coverage.work_volume_max; in-place edits of the caller's clause lists between two calls are compared with a fresh call. Class X (float "
+    "extremes) does not apply: solve_sat takes bool-free ints only",
 ]
 NOTES_C01 = ["oracle: direct evaluation of every returned assignment + truth table over occurring variables (<= 20)"]
 NOTES_C02 = [
